@@ -1610,8 +1610,57 @@ type loopExits struct {
 // loopOver finds the loop in st.fn that iterates over the slice with the given access path
 // (ordinal n among such loops) and reports which of its exits are executable.
 func loopOver(st *fnState, path string, n int) loopExits {
+	le, _ := loopOverAt(st, path, n, errResultIndex(st.fn.Signature))
+	return le
+}
+
+// loopOverFam is loopOver for a loop that may have been moved into a single-result helper of the function (a
+// predicate or a validator): the exits of the loop are then results of the helper, and each is carried through
+// the caller by analysing it again with the helper bound to that result.
+func loopOverFam(c *Ctx, sc *Scenario, fn *ssa.Function, st *fnState, path string, n int) loopExits {
+	le := loopOver(st, path, n)
+	if le.Found || st == nil {
+		return le
+	}
+	var sites []ssa.Instruction
+	for s := range st.callees {
+		sites = append(sites, s)
+	}
+	sort.Slice(sites, func(i, j int) bool { return sites[i].Pos() < sites[j].Pos() })
+	for _, site := range sites {
+		hs := st.callees[site]
+		if hs == nil || !st.execB[site.Block()] || !sameLogicalFunction(hs.fn, st.fn) || hs.fn.Signature.Results().Len() != 1 {
+			continue
+		}
+		hle, vals := loopOverAt(hs, path, n, 0)
+		if !hle.Found {
+			continue
+		}
+		out := loopExits{Found: true, Latch: hle.Latch}
+		set := map[string]bool{}
+		for _, v := range vals {
+			sc2 := *sc
+			sc2.Calls = map[string]AVal{fname(hs.fn): v}
+			for k, b := range sc.Calls {
+				sc2.Calls[k] = b
+			}
+			st2 := newSCCP(c, &sc2).run(fn, st.args, 0)
+			for _, e := range errorReturns(st2) {
+				set[e] = true
+			}
+		}
+		for e := range set {
+			out.Returns = append(out.Returns, e)
+		}
+		sort.Strings(out.Returns)
+		return out
+	}
+	return le
+}
+
+func loopOverAt(st *fnState, path string, n int, idx int) (loopExits, []AVal) {
 	fn := st.fn
-	idx := errResultIndex(fn.Signature)
+	var vals []AVal
 	k := 0
 	for _, b := range fn.Blocks {
 		// header of an index loop: contains a phi, ends with If on `i < len(path)`
@@ -1655,6 +1704,9 @@ func loopOver(st *fnState, path string, n int) loopExits {
 			for _, ins := range x.Instrs {
 				if r, ok := ins.(*ssa.Return); ok && idx >= 0 {
 					if rv, ok := st.rets[r]; ok && rv[idx].K != ABot {
+						if !set[rv[idx].String()] {
+							vals = append(vals, rv[idx])
+						}
 						set[rv[idx].String()] = true
 					}
 				}
@@ -1666,6 +1718,9 @@ func loopOver(st *fnState, path string, n int) loopExits {
 					continue
 				}
 				if v, ok := st.followExit(x, sx, idx); ok {
+					if !set[v.String()] {
+						vals = append(vals, v)
+					}
 					set[v.String()] = true
 				}
 			}
@@ -1674,9 +1729,9 @@ func loopOver(st *fnState, path string, n int) loopExits {
 			le.Returns = append(le.Returns, s)
 		}
 		sort.Strings(le.Returns)
-		return le
+		return le, vals
 	}
-	return loopExits{}
+	return loopExits{}, nil
 }
 
 func (le loopExits) String() string {
@@ -1708,6 +1763,9 @@ func mustPass(st *fnState, ins ssa.Instruction) string {
 		return "the call is not executable in this scenario"
 	}
 	target := ins.Block()
+	if h := stepLoopHeader(st, ins); h != nil {
+		target = h
+	}
 	seen := map[*ssa.BasicBlock]bool{}
 	var stack []*ssa.BasicBlock
 	entry := st.fn.Blocks[0]
@@ -1733,6 +1791,166 @@ func mustPass(st *fnState, ins ssa.Instruction) string {
 		}
 	}
 	return ""
+}
+
+// mustPassDeep is mustPass for a call that may sit in a helper, a closure or one of the steps of a local list of
+// closures analysed as part of the root: the call must lie on every path of its own function, and the place that
+// runs that function on every path of the next one up, through to the root.
+func mustPassDeep(root *fnState, ins ssa.Instruction) string {
+	var chain func(st *fnState, seen map[*fnState]bool) []struct {
+		st  *fnState
+		ins ssa.Instruction
+	}
+	type link = struct {
+		st  *fnState
+		ins ssa.Instruction
+	}
+	chain = func(st *fnState, seen map[*fnState]bool) []link {
+		if st == nil || seen[st] {
+			return nil
+		}
+		seen[st] = true
+		if ins.Parent() == st.fn && st.execB[ins.Block()] {
+			return []link{{st, ins}}
+		}
+		var sites []ssa.Instruction
+		for s := range st.callees {
+			sites = append(sites, s)
+		}
+		for s := range st.calleesDyn {
+			sites = append(sites, s)
+		}
+		sort.Slice(sites, func(i, j int) bool { return sites[i].Pos() < sites[j].Pos() })
+		for _, site := range sites {
+			if !st.execB[site.Block()] {
+				continue
+			}
+			subs := append([]*fnState{}, st.calleesDyn[site]...)
+			if cs := st.callees[site]; cs != nil {
+				subs = append(subs, cs)
+			}
+			for _, cs := range subs {
+				if rest := chain(cs, seen); rest != nil {
+					return append([]link{{st, site}}, rest...)
+				}
+			}
+		}
+		return nil
+	}
+	links := chain(root, map[*fnState]bool{})
+	if links == nil {
+		return "the call is not executable in this scenario"
+	}
+	for _, l := range links {
+		if m := mustPass(l.st, l.ins); m != "" {
+			if l.st != root {
+				m += " (in " + fname(l.st.fn) + ")"
+			}
+			return m
+		}
+	}
+	return ""
+}
+
+// stepLoopHeader: ins is the call of the current element in `for _, step := range steps` over a local list of
+// closures, the loop can only be left (in this scenario) through the header's range-done edge, and the call lies
+// on every path of one iteration; then every step runs whenever the header is reached.
+func stepLoopHeader(st *fnState, ins ssa.Instruction) *ssa.BasicBlock {
+	ci, ok := ins.(ssa.CallInstruction)
+	if !ok || len(st.calleesDyn[ins]) == 0 {
+		return nil
+	}
+	u, ok := ci.Common().Value.(*ssa.UnOp)
+	if !ok {
+		return nil
+	}
+	ia, ok := u.X.(*ssa.IndexAddr)
+	if !ok {
+		return nil
+	}
+	idx, ok := ia.Index.(*ssa.BinOp)
+	if !ok || idx.Op != token.ADD {
+		return nil
+	}
+	ph, ok := idx.X.(*ssa.Phi)
+	if !ok || len(ph.Edges) != 2 {
+		return nil
+	}
+	if k, ok := idx.Y.(*ssa.Const); !ok || k.Value == nil || k.Value.ExactString() != "1" {
+		return nil
+	}
+	start, back := false, false
+	for _, e := range ph.Edges {
+		if k, ok := e.(*ssa.Const); ok && k.Value != nil && k.Value.ExactString() == "-1" {
+			start = true
+		}
+		if e == ssa.Value(idx) {
+			back = true
+		}
+	}
+	if !start || !back {
+		return nil
+	}
+	header := ph.Block()
+	iff, ok := header.Instrs[len(header.Instrs)-1].(*ssa.If)
+	if !ok {
+		return nil
+	}
+	cond, ok := iff.Cond.(*ssa.BinOp)
+	if !ok || cond.Op != token.LSS || cond.X != ssa.Value(idx) {
+		return nil
+	}
+	ln, ok := cond.Y.(*ssa.Call)
+	if !ok {
+		return nil
+	}
+	if b, ok := ln.Call.Value.(*ssa.Builtin); !ok || b.Name() != "len" || len(ln.Call.Args) != 1 || ln.Call.Args[0] != ia.X {
+		return nil
+	}
+	var loop *natLoop
+	for _, l := range naturalLoops(st.fn) {
+		if l.header == header {
+			loop = l
+		}
+	}
+	if loop == nil || !loop.blocks[ins.Block()] {
+		return nil
+	}
+	for b := range loop.blocks {
+		for _, sc := range b.Succs {
+			if !loop.blocks[sc] && b != header && st.execB[b] && st.execE[[2]int{b.Index, sc.Index}] {
+				return nil // an executable way out of the loop other than running out of steps
+			}
+		}
+		if b != header {
+			for _, i := range b.Instrs {
+				if _, ok := i.(*ssa.Return); ok && st.execB[b] {
+					return nil
+				}
+			}
+		}
+	}
+	// one iteration: from the body entry back to the header only through the call
+	seen := map[*ssa.BasicBlock]bool{}
+	stack := []*ssa.BasicBlock{header.Succs[0]}
+	if header.Succs[0] != ins.Block() {
+		seen[header.Succs[0]] = true
+		for len(stack) > 0 {
+			b := stack[len(stack)-1]
+			stack = stack[:len(stack)-1]
+			for _, sc := range b.Succs {
+				if !st.execE[[2]int{b.Index, sc.Index}] || sc == ins.Block() || seen[sc] {
+					continue
+				}
+				if sc == header {
+					return nil
+				}
+				seen[sc] = true
+				stack = append(stack, sc)
+			}
+		}
+	}
+	return header
 }
 
 // execReaches: in the executable sub-CFG, instruction a can be followed by instruction b.
